@@ -85,6 +85,8 @@ ImplStep(m, op, ln) ==      \* the kv the Impl layer predicts after this line, o
     ELSE LET ws == Writes(m, op) IN
          IF ln.failAt \in 1..Len(ws)
          THEN IF ln.res = "err" /\ ln.fired /\ ln.nw = ln.failAt THEN <<m>> ELSE <<>>
+         ELSE IF ln.failAt = -1     \* tx.Commit fails after all writes were issued
+         THEN IF ln.res = "err" /\ ln.fired /\ ln.nw = Len(ws) THEN <<m>> ELSE <<>>
          ELSE IF ln.res = "ok" /\ ~ln.fired /\ (ln.nw >= 0 => ln.nw = Len(ws)) THEN <<ApplyAll(m, ws)>> ELSE <<>>
 
 (* All checks are gathered in one state-level boolean compared with TRUE: TLC then   *)
